@@ -43,6 +43,13 @@ def conn_methods(f):
 @cached
 def method(f, adt, name):
     c = [b for b in f.bodies.values() if b.kind == "assoc_fn" and self_is(b, adt) and b.fn_name == name and b.trait is None]
+    if not c:
+        # a method that was moved to another type keeps its reference name in the normal form (normalize.detect_renames)
+        short = adt.rsplit("::", 1)[-1]
+        for new, old in (getattr(f, "normalization", {}) or {}).get("renamed", {}).items():
+            b = f.bodies.get(old)
+            if b is not None and b.fn_name == name and b.kind == "assoc_fn" and ("::%s::" % short in old or "::%s<" % short in old or "::%s::<" % short in old):
+                c = [b]
     if len(c) != 1:
         raise AnchorLost("%s::%s" % (adt.rsplit("::", 1)[-1], name), "found %d candidates" % len(c))
     return c[0]
